@@ -3,11 +3,12 @@
 (* The complete step function: the union of the call alphabets of the      *)
 (* modules of the specification.                                           *)
 (***************************************************************************)
-EXTENDS Format
+EXTENDS Serial
 
 Step(objs, opts, call) ==
   IF call.op \in CoreOps THEN CoreStep(objs, opts, call)
   ELSE IF call.op \in CodecOps THEN CodecStep(objs, opts, call)
   ELSE IF call.op \in FormatOps THEN FormatStep(objs, opts, call)
+  ELSE IF call.op \in SerialOps THEN SerialStep(objs, opts, call)
   ELSE Unconstrained
 =============================================================================
